@@ -123,7 +123,10 @@ def scn_select(c, ci, kind, k):
     shape = ds.info['shape'][kind]
     comps_list = [_sym_index(c, shape, f'idx{p}') for p in range(k)]
     natives = [inputs.native_index(conv_name, km, comps) for comps in comps_list]
+    from pyvc.api import check_unmodified, snapshot
+    snap = snapshot(ds)
     res = expect_ok(c, 'select_indexes returns', lambda: method(it, conv, 'select_indexes', natives, index_dimension='request'))
+    check_unmodified(c, ds, snap, 'the dataset selected from')
     _check_selection(c, it, ds, conv, conv_name, res, kind, comps_list, 'request')
     res2 = expect_ok(c, 'select_indexes with drop_geometry=False returns', lambda: method(it, conv, 'select_indexes', natives, drop_geometry=False))
     _check_selection(c, it, ds, conv, conv_name, res2, kind, comps_list, 'index', drop_geometry=False)
